@@ -148,7 +148,8 @@ def r1_indentation_everywhere(ctx):
                     continue      # an empty group
                 has = any(k.arg == opt for k in c.keywords) or any(
                     k.arg is None and opt in norm(k.value)
-                    for k in c.keywords)
+                    for k in c.keywords) or any(
+                    norm(a_) == opt for a_ in c.args)
                 nfw += 1
                 what = ("the metadata override (e.g. a spring constant) is "
                         "ignored" if opt == "meta_override" else
